@@ -1,7 +1,7 @@
 (* C19 — property theorems only.  Each is closed by [exact] of a lemma proved in C19_Proofs.v
    and followed by Print Assumptions.  "No panic" is stated over the models with CHECKED
    indexing/slicing (an out-of-range index or slice, or running out of loop fuel, is [Panic]). *)
-Require Import V.Lib V.C19_Model V.C19_Proofs.
+Require Import V.Lib V.C19_Model V.C19_Proofs V.C19_ProofsHello V.C19_ProofsWire.
 Open Scope N_scope.
 
 (* ---- TLS ClientHello parser: total on every byte string ---- *)
@@ -214,4 +214,252 @@ Print Assumptions C19_subst_key_no_panic.
 
 Example C19_subst_key_no_panic_nonvacuous :
   subst_key [123; 62; 125] = Ok (1, []) /\ subst_key (lit_label_13 ++ [125]) = Ok (6, []).
+Proof. split; reflexivity. Qed.
+
+(* ============================================================================================ *)
+(* what is recorded is EXACTLY the peer's hello                                                 *)
+(* ============================================================================================ *)
+(* the functional theorem of parseRawClientHello: for EVERY structured hello (version, random,
+   session id, cipher suites, compression methods, extensions: supported_groups, ec_point_formats
+   and ANY other extension type with ANY body — server_name, ALPN, unknown ones) whose lengths fit
+   their 1/2-byte prefixes, parsing the encoding returns the fields it was built from (the LAST
+   supported_groups / ec_point_formats extension wins).  Proved by induction over the extension list *)
+Theorem C19_parse_encode_roundtrip :
+  forall h : hello, hello_wf h = true -> parse_raw_client_hello (encode_hello h) = Ok (info_of h).
+Proof. exact parse_encode_roundtrip. Qed.
+Print Assumptions C19_parse_encode_roundtrip.
+
+Example C19_parse_encode_roundtrip_nonvacuous :
+  let h := mkHello 771 (repeat 7 32) [1; 2; 3] [4865; 49195; 2570] [0]
+             [e_server_name (bs "a.test"%string); EOther 23 []; ECurves [2570; 29; 23; 24]; EPoints [0];
+              e_alpn [(bs "h2"%string); (bs "http/1.1"%string)]; EOther 65281 [0]; ECurves [29]; EOther 4660 [255; 0; 1]] in
+  hello_wf h = true /\
+  info_of h = mkInfo 771 [4865; 49195; 2570] [0; 23; 10; 11; 16; 65281; 10; 4660] [0] [29] [0].
+Proof. split; reflexivity. Qed.
+
+(* the well-formedness guard is what makes the encoding a BYTE string (every element < 256) *)
+Theorem C19_encode_hello_is_bytes :
+  forall h : hello, hello_wf h = true -> forallb byte_ok (encode_hello h) = true.
+Proof. exact encode_hello_bytes. Qed.
+Print Assumptions C19_encode_hello_is_bytes.
+
+(* bytes AFTER the hello in the buffer handed to the parser are NOT ignored in general ... *)
+Theorem C19_parse_ignores_trailing_garbage_refuted :
+  exists (h : hello) (g : bytes), hello_wf h = true /\
+    parse_raw_client_hello (encode_hello h ++ g) <> Ok (info_of h).
+Proof.
+  exists (mkHello 771 (repeat 7 32) [] [4865] [0] [EOther 15 [1]]), [0].
+  split; [reflexivity|]. vm_compute. discriminate.
+Qed.
+Print Assumptions C19_parse_ignores_trailing_garbage_refuted.
+
+(* ... precisely: with ANY non-empty trailing bytes, version / suites / compression methods are
+   still the hello's and the extension list, curves and points come out EMPTY (the parser
+   requires the extensions length to cover the rest of its input) — so a peer that puts a second
+   handshake message into the record of its ClientHello is recorded as a hello WITHOUT extensions *)
+Theorem C19_parse_ignores_trailing_garbage_partial :
+  forall (h : hello) (g : bytes), hello_wf h = true -> g <> [] ->
+    parse_raw_client_hello (encode_hello h ++ g) = Ok (info_of (without_exts h)).
+Proof. exact parse_trailing_garbage. Qed.
+Print Assumptions C19_parse_ignores_trailing_garbage_partial.
+
+(* and trailing bytes ARE ignored exactly when the hello has no extensions *)
+Theorem C19_parse_ignores_trailing_garbage_without_extensions :
+  forall (h : hello) (g : bytes), hello_wf h = true -> h_exts h = [] ->
+    parse_raw_client_hello (encode_hello h ++ g) = Ok (info_of h).
+Proof. exact parse_trailing_garbage_noexts. Qed.
+Print Assumptions C19_parse_ignores_trailing_garbage_without_extensions.
+
+Example C19_parse_ignores_trailing_garbage_nonvacuous :
+  hello_wf (mkHello 771 (repeat 7 32) [] [4865] [0] []) = true /\ [0; 1] <> @nil N.
+Proof. split; [reflexivity|discriminate]. Qed.
+
+(* TRUNCATION: every strict prefix of the encoding of a well-formed hello is recorded as one of
+   four prefixes of the peer's fields, decided by where the cut falls: nothing (< 42 bytes), the
+   version, version + cipher suites, version + suites + compression methods — never extensions,
+   curves or points, and never a value that is not the peer's *)
+Theorem C19_parse_prefix_stages :
+  forall (h : hello) (k : nat), hello_wf h = true -> (k < length (encode_hello h))%nat ->
+    parse_raw_client_hello (firstn k (encode_hello h)) = Ok (stage_info h (cut_stage h k)).
+Proof. exact parse_prefix. Qed.
+Print Assumptions C19_parse_prefix_stages.
+
+Example C19_parse_prefix_stages_nonvacuous :
+  let h := mkHello 771 (repeat 7 32) [1; 2; 3; 4; 5] [4865; 49195] [0] [ECurves [29]] in
+  hello_wf h = true /\ length (encode_hello h) = 62%nat /\
+  map (cut_stage h) [41; 42; 43; 49; 50; 51; 52; 61]%nat = [0; 1; 1; 1; 2; 2; 3; 3]%nat.
+Proof. vm_compute. repeat split. Qed.
+
+(* END TO END: for every well-formed hello, every 3 leading record-header bytes, ANY bytes
+   following the record and EVERY way the network splits all of that into reads (empty reads
+   included), clientHelloConn records info_of h — exactly the peer's hello *)
+Theorem C19_recorded_is_peer_hello :
+  forall (h : hello) (hdr3 rest : bytes) (segs : list bytes),
+    hello_wf h = true -> length hdr3 = 3%nat -> nlen (encode_hello h) < 65536 ->
+    concat segs = tls_record hdr3 (encode_hello h) ++ rest ->
+    exists st, conn_run conn0 segs = Ok st /\ c_recorded st = Some (info_of h).
+Proof. exact recorded_is_peer_hello. Qed.
+Print Assumptions C19_recorded_is_peer_hello.
+
+Example C19_recorded_is_peer_hello_nonvacuous :
+  let h := pool_hello_b in
+  let w := tls_record [22; 3; 1] (encode_hello h) ++ [23; 3; 3] in
+  hello_wf h = true /\ nlen (encode_hello h) < 65536 /\
+  concat [firstn 3 w; []; firstn 40 (skipn 3 w); skipn 43 w] = w.
+Proof. vm_compute. repeat split. Qed.
+
+(* ... and nothing at all while the record is incomplete *)
+Theorem C19_recorded_nothing_before_hello_complete :
+  forall (h : hello) (hdr3 : bytes) (segs : list bytes) (k : nat),
+    length hdr3 = 3%nat -> nlen (encode_hello h) < 65536 ->
+    (k < 5 + length (encode_hello h))%nat ->
+    concat segs = firstn k (tls_record hdr3 (encode_hello h)) ->
+    exists st, conn_run conn0 segs = Ok st /\ c_recorded st = None.
+Proof. exact recorded_nothing_before_complete. Qed.
+Print Assumptions C19_recorded_nothing_before_hello_complete.
+
+Example C19_recorded_nothing_before_hello_complete_nonvacuous :
+  let w := tls_record [22; 3; 1] (encode_hello pool_hello_b) in
+  concat [firstn 9 w; firstn 20 (skipn 9 w)] = firstn 29 w /\ (29 < 5 + length (encode_hello pool_hello_b))%nat.
+Proof. vm_compute. split; [reflexivity|]. repeat constructor. Qed.
+
+(* ---- bytes of ANOTHER connection are never recorded for this one ---- *)
+(* tlsHelloListener.Accept draws the tee buffer from a pool and empties it (buf.Reset()).  For
+   EVERY initial pool contents (whatever earlier connections left in their buffers), EVERY
+   interleaving of Accepts and Reads of any number of connections and EVERY choice of pooled
+   buffer, what is recorded for a connection is recorded_of of the bytes THAT connection delivered
+   since it was accepted *)
+Theorem C19_accept_isolates_connections :
+  forall (pool : list bytes) (evs : list ev),
+    exists st, l_run true (l_init pool) evs = Ok st /\
+      forall id, recorded_for st id =
+                 match own_segs evs id with
+                 | Some segs => recorded_of (concat segs)
+                 | None => None
+                 end.
+Proof. exact accept_isolates. Qed.
+Print Assumptions C19_accept_isolates_connections.
+
+Example C19_accept_isolates_connections_witness :
+  exists st, l_run true (l_init []) pool_witness = Ok st /\
+             recorded_for st 2%nat = Some (info_of pool_hello_b) /\
+             recorded_for st 1%nat = Some (info_of pool_hello_a).
+Proof. exact reset_witness. Qed.
+
+(* WHY the Reset matters (the seeded change C19-m3 removes it): the same schedule without it
+   records for connection 2 the hello that connection 1 appended to its own — not the hello
+   connection 2 sent *)
+Theorem C19_accept_without_reset_leaks :
+  exists st, l_run false (l_init []) pool_witness = Ok st /\
+             own_segs pool_witness 2%nat = Some [pool_rec pool_hello_b] /\
+             recorded_of (pool_rec pool_hello_b) = Some (info_of pool_hello_b) /\
+             recorded_for st 2%nat = Some (info_of pool_hello_x).
+Proof. exact no_reset_leaks. Qed.
+Print Assumptions C19_accept_without_reset_leaks.
+
+(* in general a connection that starts on a buffer holding [stale] bytes records a function of
+   stale ++ its own bytes as soon as it reads *)
+Theorem C19_stale_buffer_is_recorded :
+  forall (stale seg : bytes) (segs : list bytes),
+    exists st, conn_run (mkConn false stale None) (seg :: segs) = Ok st /\
+               c_recorded st = recorded_of (stale ++ concat (seg :: segs)).
+Proof. exact stale_buffer_recorded. Qed.
+Print Assumptions C19_stale_buffer_is_recorded.
+
+(* ============================================================================================ *)
+(* FastCGI: ANY byte string from the backend in ANY read segmentation (short reads)             *)
+(* ============================================================================================ *)
+(* record.read over a connection that delivers the bytes in arbitrary pieces behaves exactly as on
+   the whole byte string: same error class, same type and content, and what is left on the
+   connection is the same bytes *)
+Theorem C19_record_read_short_reads :
+  forall segs : list bytes,
+    match record_read (concat segs) with
+    | Ok (RErr e) => record_read_seg false segs = Ok (SErr e)
+    | Ok (RRec t c rest) => exists segs', record_read_seg false segs = Ok (SRec t c segs') /\ concat segs' = rest
+    | Panic => False
+    end.
+Proof. exact record_read_seg_flat. Qed.
+Print Assumptions C19_record_read_short_reads.
+
+Theorem C19_stream_short_reads_no_panic :
+  forall segs : list bytes, stream_read_segs false segs <> Panic.
+Proof. exact stream_segs_no_panic. Qed.
+Print Assumptions C19_stream_short_reads_no_panic.
+
+Theorem C19_stream_short_reads_exact :
+  forall segs : list bytes, stream_read_segs false segs = stream_read_all (concat segs).
+Proof. exact stream_segs_flat. Qed.
+Print Assumptions C19_stream_short_reads_exact.
+
+(* the backend's stdout, exactly, for every list of well-formed records (content up to 65535,
+   padding up to 255: sums above 65535 included) in every read segmentation *)
+Theorem C19_stream_short_reads_decode_records :
+  forall (rs : list frec) (closed : bool) (segs : list bytes), forallb frec_wf rs = true ->
+    concat segs = flat_map enc_rec rs ++ (if closed then [] else end_request) ->
+    stream_read_segs false segs = Ok (stdout_of rs, 1).
+Proof. exact stream_segs_decodes. Qed.
+Print Assumptions C19_stream_short_reads_decode_records.
+
+Example C19_stream_short_reads_decode_records_nonvacuous :
+  let rs := [mkRec 6 [104; 105] 6; mkRec 7 [33] 7] in
+  let w := flat_map enc_rec rs ++ end_request in
+  forallb frec_wf rs = true /\ concat [firstn 3 w; firstn 6 (skipn 3 w); []; skipn 9 w] = w.
+Proof. vm_compute. split; reflexivity. Qed.
+
+(* a record that is read consumes exactly 8 + ContentLength + PaddingLength bytes and returns
+   exactly the ContentLength bytes after the header — for EVERY header, the sum is not wrapped *)
+Theorem C19_record_read_consumes_exactly :
+  forall (s : bytes) (t : N) (c rest : bytes), record_read s = Ok (RRec t c rest) ->
+    exists pre pad, s = pre ++ c ++ pad ++ rest /\ length pre = 8%nat /\
+      length c = N.to_nat (u16 (nth 4 s 0) (nth 5 s 0)) /\ length pad = N.to_nat (nth 6 s 0).
+Proof. exact record_read_consumes. Qed.
+Print Assumptions C19_record_read_consumes_exactly.
+
+Example C19_record_read_consumes_exactly_nonvacuous :
+  record_read (enc_rec (mkRec 6 [104; 105] 3) ++ [9]) = Ok (RRec 6 [104; 105] [9]).
+Proof. reflexivity. Qed.
+
+(* WHY the sum must be taken in int (seeded C19-m2 / C19-m4 take it in uint16): with the wrapped
+   sum a record with ContentLength 65535 and PaddingLength 1 makes rec.rbuf[:ContentLength]
+   panic; the code as it is reads it whole *)
+Theorem C19_record_read_wrapped_sum_panics :
+  is_panic (record_read_seg true [wrap_witness]) = true /\
+  reads_whole (record_read_seg false [wrap_witness]) 6 (rep 97 65535) = true.
+Proof. exact wrapped_sum_panics. Qed.
+Print Assumptions C19_record_read_wrapped_sum_panics.
+
+(* ============================================================================================ *)
+(* the remaining casket-owned index expressions on peer bytes                                   *)
+(* ============================================================================================ *)
+(* {labelN}: labels[n-1] of strings.Split(Host, ".") for EVERY Host header and EVERY N text *)
+Theorem C19_label_subst_no_panic : forall host nstr : bytes, label_subst host nstr <> Panic.
+Proof. exact label_subst_no_panic. Qed.
+Print Assumptions C19_label_subst_no_panic.
+
+(* proxy createUpstreamRequest folds the peer's X-Forwarded-For values (ANY number of ANY byte
+   strings: commas, spaces, empty values) in front of the connection's address: the last
+   comma-separated element of what is forwarded is always that address *)
+Theorem C19_xff_last_is_client_ip :
+  forall (prior : option (list bytes)) (ip : bytes), ~ In COMMA ip ->
+    last (split COMMA (xff_fold prior ip)) [] = match prior with None => ip | Some _ => 32 :: ip end.
+Proof. exact xff_last_is_ip. Qed.
+Print Assumptions C19_xff_last_is_client_ip.
+
+Example C19_xff_last_is_client_ip_nonvacuous :
+  ~ In COMMA (bs "192.0.2.7"%string) /\
+  xff_fold (Some [(bs "1.1.1.1, evil"%string); []; (bs ","%string)]) (bs "192.0.2.7"%string) = (bs "1.1.1.1, evil, , ,, 192.0.2.7"%string).
+Proof. split; [|reflexivity]. vm_compute. intuition discriminate. Qed.
+
+(* websocket findIncompleteRuneLength(out, len) with len <= len(out): total, and the result is at
+   most 3 and at most len, so out[len-remainLen:len] and out[0:len-remainLen] are in range *)
+Theorem C19_find_incomplete_rune_length_total :
+  forall (p : bytes) (len : nat), (len <= length p)%nat ->
+    exists r, find_incomplete_rune_length p len = Ok r /\ (r <= 3)%nat /\ (r <= len)%nat.
+Proof. exact firl_ok. Qed.
+Print Assumptions C19_find_incomplete_rune_length_total.
+
+Example C19_find_incomplete_rune_length_total_nonvacuous :
+  find_incomplete_rune_length [97; 240; 159; 146] 4 = Ok 3%nat /\
+  find_incomplete_rune_length [97; 240; 159; 146] 1 = Ok 0%nat.
 Proof. split; reflexivity. Qed.
